@@ -881,7 +881,7 @@ class FileStorage(
             self._file.truncate(self._pos)
             self._files.flush()
             self._nextpos = 0
-            self._blob_tpc_abort()
+        self._blob_tpc_abort()
 
     def _undoDataInfo(self, oid, pos, tpos):
         """Return the tid, data pointer, and data for the oid record at pos
